@@ -71,6 +71,17 @@ static std::string op(const Toks& t) {
       KeyvalTools::parseProcedure(desc, name, m);
       return strToHex(desc) + " " + strToHex(name) + " " + showMap(m);
     }
+    if (o == "kv.crt") {         // kv.crt <name> <n> k1 v1 ... <m> nk1 nv1 ... : render, then substitute
+      std::string desc = hexToStr(t[1]);
+      size_t n = toU(t[2]);
+      desc += "(";
+      for (size_t i = 0; i < n; ++i) { if (i) desc += ","; desc += hexToStr(t[3 + 2 * i]) + "=" + hexToStr(t[4 + 2 * i]); }
+      desc += ")";
+      size_t b = 3 + 2 * n; size_t m = toU(t[b]);
+      std::map<std::string, std::string> nk;
+      for (size_t i = 0; i < m; ++i) nk[hexToStr(t[b + 1 + 2 * i])] = hexToStr(t[b + 2 + 2 * i]);
+      return strToHex(KeyvalTools::changeKeyvals(desc, nk));
+    }
     if (o == "kv.change") {      // kv.change <desc> <split> <nested> <n> k1 v1 ...
       std::map<std::string, std::string> m; size_t n = toU(t[4]);
       for (size_t i = 0; i < n; ++i) m[hexToStr(t[5 + 2 * i])] = hexToStr(t[6 + 2 * i]);
